@@ -139,7 +139,8 @@ __CPROVER_ensures(g_b.append_calls == OLD(g_b.append_calls) + 1 && g_b.appended 
                              chunk->refcount == 2 && g_malloc_calls == OLD(g_malloc_calls)))           \
   __CPROVER_ensures(!RET ==> (CHUNKS(item)->chunk_count == OLD(CHUNKS(item)->chunk_count) && chunk->refcount == 1 && \
                               g_refused && g_live == OLD(g_live) && g_malloc_calls == OLD(g_malloc_calls))) \
-  __CPROVER_ensures(g_free_calls == OLD(g_free_calls) && (OLD(g_refused) ==> g_refused))
+  __CPROVER_ensures(g_free_calls == OLD(g_free_calls) && (OLD(g_refused) ==> g_refused) &&              \
+                    g_realloc_calls <= OLD(g_realloc_calls) + 1 && g_live <= OLD(g_live) + 1 && g_live >= OLD(g_live))
 bool cbor_bytestring_add_chunk__cb(cbor_item_t *item, cbor_item_t *chunk) ADD_CHUNK_CB(BYTESTRING_INDEF_VALID);
 bool cbor_string_add_chunk__cb(cbor_item_t *item, cbor_item_t *chunk) ADD_CHUNK_CB(STRING_INDEF_VALID);
 
